@@ -22,11 +22,11 @@ import (
 	"go/ast"
 	"go/parser"
 	"go/token"
-	"strconv"
 	"os"
 	"path/filepath"
 	"runtime/debug"
 	"sort"
+	"strconv"
 	"strings"
 	"unicode"
 
